@@ -21,6 +21,11 @@ def dv(x):
         return datetime.date.fromisoformat(x[2:])
     if isinstance(x, str) and x.startswith("T:"):
         return datetime.datetime.fromisoformat(x[2:])
+    if isinstance(x, str) and x == "F:nan":
+        return float("nan")          # a NEW NaN object every time (hash(nan) is per object: a fingerprint must not use it)
+    if isinstance(x, str) and x.startswith("C:"):
+        re_, im_ = x[2:].split(",")
+        return complex(float(re_), float(im_))
     return x
 
 
@@ -125,9 +130,11 @@ class World:
 # ---------------- step generation ----------------
 
 def rand_vals(rng, n, kind=None):
-    kind = kind or rng.choice(["int", "int", "intnone", "str", "float", "mixed", "date", "datenone"])
+    kind = kind or rng.choice(["int", "int", "int", "intnone", "intnone", "str", "str", "float", "float", "mixed", "mixed", "date", "date",
+                               "datenone", "datenone", "bool", "floatnan", "complex"])
     pool = {"int": [0, 1, 2, 3], "intnone": [0, 1, 2, None], "str": ["a", "b", "c"], "float": [0.5, 1.5, 2.0],
-            "mixed": VALS, "bool": [True, False], "date": DATES, "datenone": DATES + [None, None]}[kind]
+            "mixed": VALS, "bool": [True, False], "date": DATES, "datenone": DATES + [None, None],
+            "floatnan": [0.5, 1.5, "F:nan", None], "complex": ["C:1,2", "C:0,0", "C:0.5,-1"]}[kind]
     return [rng.choice(pool) for _ in range(n)]
 
 
@@ -153,14 +160,111 @@ def mk_key(k):
         return list(k[1])
     if k[0] == "ilist":
         return list(k[1])
+    if k[0] == "tuple":
+        return tuple(k[1])
+    if k[0] in ("vmask", "vilist"):
+        return _serif().Vector(list(k[1]))      # the key as a fresh Vector (boolean mask / positions)
     raise ValueError(k)
+
+
+def rand_wkey(rng, n, vecs, r):
+    """key of a vector item assignment: the plain forms of rand_key, plus a tuple of positions, a boolean Vector, a Vector of
+    positions, and a LIVE vector (any slot, the written vector itself included) used as the key"""
+    c = rng.random()
+    if c < 0.66:
+        return rand_key(rng, n)
+    if c < 0.74:
+        return ["tuple", [rng.randint(-n, max(n - 1, 0)) for _ in range(rng.randint(1, 3))]]
+    if c < 0.83:
+        return ["vmask", [rng.random() < 0.5 for _ in range(n if rng.random() < 0.9 else n + 1)]]
+    if c < 0.92:
+        return ["vilist", [rng.randint(-n, max(n - 1, 0)) for _ in range(rng.randint(1, 3))]]
+    return ["kslot", r if rng.random() < 0.3 else rng.choice(vecs)]
+
+
+def key_count(key, n):
+    """how many positions a key addresses (None: not known here)"""
+    try:
+        if key[0] == "slice":
+            return len(range(n)[slice(key[1], key[2], key[3])])
+        if key[0] in ("mask", "vmask"):
+            return sum(1 for f in key[1] if f)
+        if key[0] in ("ilist", "vilist", "tuple"):
+            return len(key[1])
+    except Exception:
+        pass
+    return None
+
+
+def rand_wval(rng, vecs, r, k=None):
+    """value of a vector item assignment: scalar, list, tuple, a fresh Vector, or a LIVE vector (possibly the written one);
+    a sequence mostly has as many items as the key addresses (`k`)"""
+    c = rng.random()
+    if k is not None and rng.random() < 0.75:
+        if c < 0.45:
+            return ["scalar", rng.choice(VALS + [5, 7] + DATETIMES + DATES[:1] + ["C:1,2", "F:nan"])]
+        kind = rng.choice(["int", "int", "mixed", "float", "intnone"])
+        if c < 0.72:
+            return ["list", rand_vals(rng, k, kind)]
+        if c < 0.79:
+            return ["tuple", rand_vals(rng, k, kind)]
+        if c < 0.86 and k:
+            return ["vec", rand_vals(rng, k, kind)]
+    if c < 0.45:
+        return ["scalar", rng.choice(VALS + [5, 7] + DATETIMES + DATES[:1] + ["C:1,2", "F:nan"])]
+    if c < 0.72:
+        return ["list", rand_vals(rng, rng.randint(0, 3))]
+    if c < 0.79:
+        return ["tuple", rand_vals(rng, rng.randint(0, 3))]
+    if c < 0.86:
+        return ["vec", rand_vals(rng, rng.randint(1, 3))]
+    return ["vslot", r if rng.random() < 0.3 else rng.choice(vecs)]
+
+
+def wval_of(sl, v):
+    s = _serif()
+    if v[0] == "scalar":
+        return dv(v[1])
+    if v[0] == "tuple":
+        return tuple(dvs(v[1]))
+    if v[0] == "vec":
+        return s.Vector(dvs(v[1]))
+    if v[0] == "vslot":
+        return sl[v[1]]
+    return dvs(v[1])
+
+
+def sel_key(w, st):
+    """a `mask` step's key object and the row positions it selects (None when the key is not a valid selection):
+    a list / Vector of booleans, a list / Vector of positions (`take`), or a live vector used as the key (`kslot`)"""
+    s = _serif()
+    n = len(w.slots[st["src"]])
+    how = st.get("how", "list")
+    if "kslot" in st:
+        key = w.slots[st["kslot"]]
+        items = list(key)
+    elif "take" in st:
+        items = list(st["take"])
+        key = s.Vector(items) if how == "vec" else items
+    else:
+        items = list(st["mask"])
+        key = s.Vector(items) if how == "vec" else items
+    idxs = None
+    if items and all(type(x) is bool for x in items) and len(items) == n:
+        idxs = [i for i, f in enumerate(items) if f]
+    elif items and all(type(x) is int for x in items) and all(-n <= x < n for x in items):
+        idxs = [x % n for x in items]
+    return key, idxs
 
 
 def related_slots(st):
     out = []
-    for f in ("dst", "src", "a", "t", "r", "L", "R"):   # (stackdictv: a, src, dst)
+    for f in ("dst", "src", "a", "t", "r", "L", "R", "kslot"):   # (stackdictv: a, src, dst)
         if isinstance(st.get(f), int):
             out.append(st[f])
+    for f in ("key", "val"):                 # a live vector used as the key / the value of a write
+        if isinstance(st.get(f), list) and len(st[f]) == 2 and st[f][0] in ("kslot", "vslot"):
+            out.append(st[f][1])
     if isinstance(st.get("b"), list) and st["b"][0] == "slot":
         out.append(st["b"][1])
     out += [i for i in st.get("srcs", []) if isinstance(i, int)]
@@ -215,6 +319,32 @@ PROBES_T = {"peek": lambda o: o.peek(), "iter": lambda o: [list(r) for r in o], 
             "deepcopy": lambda o: __import__("copy").deepcopy(o), "pycopy": lambda o: __import__("copy").copy(o)}
 
 
+# read-only operations whose result is documented to be a NEW vector / table and is KEPT in a slot (and written through later):
+# many of them have nothing to do on most inputs (no None to drop or fill, a cast to the kind the vector has, every position
+# selected, nothing appended) — the result is a new object all the same
+KEEP_V = {k: PROBES_V[k] for k in ("unique", "invert", "isna", "upper", "year", "eqs", "to_object", "dropna", "radd", "rlshift", "neg", "abs",
+                                   "rev", "T", "eqself", "ltself", "addself")}
+KEEP_V.update({"pos": lambda o: +o, "castsame": lambda o: o.cast(o.schema().kind), "fillnone": lambda o: o.fillna(None),
+               "fillfirst": lambda o: o.fillna(next((x for x in o if x is not None), 0)),
+               "sortna": lambda o: o.sort_by(na_last=False), "copyname": lambda o: o.copy(name="k"), "copysame": lambda o: o.copy(list(o)),
+               "ctor": lambda o: _serif().Vector(o), "ctorname": lambda o: _serif().Vector(o, name=o.name),
+               "lshift0": lambda o: o << [], "lshift0t": lambda o: o << (), "lshift0v": lambda o: o << o[0:0], "rlshift0": lambda o: [] << o,
+               "lshiftself": lambda o: o << o, "lshift1": lambda o: o << 1, "takeall": lambda o: o[list(range(len(o)))],
+               "maskall": lambda o: o[_serif().Vector([True] * len(o))], "selfmask": lambda o: o[o], "mul1": lambda o: o * 1,
+               "add0": lambda o: o + 0, "rmul1": lambda o: 1 * o, "and": lambda o: o & o, "or": lambda o: o | o,
+               "tabof": lambda o: _serif().Table({"k": o}), "tabof2": lambda o: _serif().Vector([o, o]), "rshself": lambda o: o >> o})
+KEEP_T = {k: PROBES_T[k] for k in ("eqs", "rev", "selall", "isna", "neg", "mul", "sortall", "agg", "win", "selfjoin", "fulljoin", "T",
+                                   "to_object", "dropna", "unique", "eqself", "neself", "ltself", "addself")}
+KEEP_T.update({"pos": lambda o: +o, "abs": lambda o: abs(o), "rmul": lambda o: 1 * o, "radd": lambda o: 0 + o,
+               "allrows": lambda o: o[0:len(o)], "maskall": lambda o: o[[True] * len(o)], "vmaskall": lambda o: o[_serif().Vector([True] * len(o))],
+               "takeall": lambda o: o[_serif().Vector(list(range(len(o))))], "col0full": lambda o: o[:, 0], "colsfull": lambda o: o[:, :],
+               "rshself": lambda o: o >> o, "lshself": lambda o: o << o, "rsh0": lambda o: o >> {}, "sortcol": lambda o: o.sort_by(o.cols()[0]),
+               "sortnames": lambda o: o.sort_by([n for n in o.column_names() if isinstance(n, str)][:2]),
+               "copyvals": lambda o: o.copy(list(o.cols())), "ctor": lambda o: _serif().Table(list(o.cols())),
+               "ctordict": lambda o: _serif().Table({n: c for n, c in zip(o.column_names(), o.cols()) if isinstance(n, str)}),
+               "col0": lambda o: o.cols()[0].copy(), "leftjoin": lambda o: o.join(o[0:0], o.cols()[0], o[0:0].cols()[0], expect="many_to_many")})
+
+
 def choose_step(rng, w, flavor, last=None):
     """draw one applicable concrete step for the current world"""
     if last is not None and rng.random() < 0.55:
@@ -234,11 +364,11 @@ def choose_step(rng, w, flavor, last=None):
     if vecs:
         menu += [("copy", 1), ("slice", 1), ("mask", 1), ("write", 6), ("setname", 1), ("arith", 1), ("compare", 1),
                  ("fingerprint", 2), ("repr", 1), ("sortv", 1), ("sharevec", 1), ("tabfrom", 2), ("unary", 1), ("fillna", 1),
-                 ("probe", 3)]
+                 ("probe", 3), ("keep", 3), ("concat", 1)]
     if tabs:
         menu += [("copy", 1), ("slice", 2), ("mask", 1), ("select", 2), ("getcol", 5), ("tabwrite", 5), ("rename", 2),
                  ("T", 1), ("sort", 1), ("join", 1), ("aggregate", 1), ("window", 1), ("tarith", 1), ("fingerprint", 3),
-                 ("repr", 1), ("stackdict", 1), ("append", 1), ("renames", 1), ("probe", 3)]
+                 ("repr", 1), ("stackdict", 1), ("append", 1), ("renames", 1), ("probe", 3), ("keep", 3), ("sel2d", 3)]
     if tabs and vecs:
         menu += [("setattr", 5), ("stack", 3), ("stackdictv", 2), ("stackvt", 2)]
     if tabs:
@@ -254,12 +384,15 @@ def choose_step(rng, w, flavor, last=None):
         return rng.choice(vecs + tabs)
 
     if op == "newvec":
-        n = rng.choice([nrows, nrows, nrows, 0, 1, 4])
-        return {"op": "newvec", "dst": dst, "vals": rand_vals(rng, n), "name": rng.choice(NAMES)}
+        n = rng.choice([nrows, nrows, nrows, 0, 1, 4]) if rng.random() < 0.96 else rng.choice([12, 17, 40])   # … and beyond any size threshold
+        st = {"op": "newvec", "dst": dst, "vals": rand_vals(rng, n), "name": rng.choice(NAMES)}
+        if rng.random() < 0.12:
+            st["dt"] = rng.choice(["nullable", "object"])      # a dtype declared wider than the contents need
+        return st
     if op == "newtab":
         nc = rng.randint(1, 3)
         names = [rng.choice(["a", "b", "c", "A b", "a"]) for _ in range(nc)]
-        nr = rng.choice([nrows, nrows, nrows, nrows, 0, 1])
+        nr = rng.choice([nrows, nrows, nrows, nrows, 0, 1]) if rng.random() < 0.97 else rng.choice([12, 40])
         cols = [[nm, rand_vals(rng, nr)] for nm in names]
         if nc > 1 and rng.random() < 0.15:   # malformed stream: ragged input must be rejected
             j = rng.randrange(nc)
@@ -267,9 +400,10 @@ def choose_step(rng, w, flavor, last=None):
         return {"op": "newtab", "dst": dst, "cols": cols, "form": rng.choice(["list", "list", "dict"])}
     if op == "tabfrom":
         k = rng.randint(1, min(3, len(vecs)))
-        return {"op": "tabfrom", "dst": dst, "srcs": [rng.choice(vecs) for _ in range(k)]}
+        # Table([...]), Table({...: vector}), Vector([...vectors...]), v >> w >> …
+        return {"op": "tabfrom", "dst": dst, "srcs": [rng.choice(vecs) for _ in range(k)], "form": rng.choice(["list", "list", "dict", "vector", "rshift"])}
     if op == "copy":
-        return {"op": "copy", "dst": dst, "src": anyobj(), "how": rng.choice([None, None, "py", "deep"])}
+        return {"op": "copy", "dst": dst, "src": anyobj(), "how": rng.choice([None, None, "py", "deep", "ctor", "named"])}
     if op == "slice":
         src = anyobj()
         n = len(w.slots[src])
@@ -280,7 +414,18 @@ def choose_step(rng, w, flavor, last=None):
     if op == "mask":
         src = anyobj()
         n = len(w.slots[src])
-        return {"op": "mask", "dst": dst, "src": src, "mask": [rng.random() < 0.5 for _ in range(n)]}
+        c = rng.random()
+        st = {"op": "mask", "dst": dst, "src": src, "mask": [rng.random() < 0.5 for _ in range(n)]}
+        if c < 0.45:
+            return st
+        if c < 0.6:
+            return dict(st, how="vec")                       # the mask as a boolean Vector
+        if c < 0.8:                                            # positions (repeated, negative, sometimes out of range), list or Vector
+            return dict(st, take=[rng.randint(-n, n - 1 if rng.random() < 0.9 else n) for _ in range(rng.randint(0, n + 1))] if n else [0],
+                        how=rng.choice(["list", "vec", "vec"]))
+        if vecs:
+            return dict(st, kslot=src if src in vecs and rng.random() < 0.3 else rng.choice(vecs))   # a live vector as the key
+        return st
     if op == "select":
         t = rng.choice(tabs)
         names = [c for c in w.slots[t].column_names() if isinstance(c, str)]
@@ -306,7 +451,7 @@ def choose_step(rng, w, flavor, last=None):
         nc = len(w.slots[t].cols())
         if nc == 0:
             return {"op": "gc"}
-        return {"op": "setattr", "t": t, "j": rng.randrange(nc), "src": rng.choice(vecs)}
+        return {"op": "setattr", "t": t, "j": rng.randrange(nc), "src": rng.choice(vecs), "indexed": rng.random() < 0.4}
     if op == "setattr_list":
         t = rng.choice(tabs)
         nc, n = len(w.slots[t].cols()), len(w.slots[t])
@@ -321,16 +466,82 @@ def choose_step(rng, w, flavor, last=None):
     if op == "write":
         r = rng.choice(vecs)
         n = len(w.slots[r])
-        key = rand_key(rng, n)
-        val = rng.choice([["scalar", rng.choice(VALS + [5, 7] + DATETIMES + DATES[:1])], ["list", rand_vals(rng, rng.randint(0, 3))]])
+        key = rand_wkey(rng, n, vecs, r)
+        if key[0] == "kslot" and rng.random() < 0.7:
+            good = [i for i in vecs if len(w.slots[i]) == n and w.obs_vec(w.slots[i])["dtype"] in ([1, False], [2, False])]
+            if good:
+                key = ["kslot", rng.choice(good)]          # a live boolean / integer vector of the right length
+        val = rand_wval(rng, vecs, r, key_count(key, n))
+        if val[0] == "vslot" and rng.random() < 0.7:
+            fit = [i for i in vecs if len(w.slots[i]) == n]
+            if fit:
+                key, val = rng.choice([["slice", None, None, None], ["slice", 0, n, None], ["mask", [True] * n]]), ["vslot", rng.choice(fit)]
+        if key[0] == "int" and val[0] in ("vec", "vslot"):
+            key = ["slice", None, None, None]      # (a vector stored AS an element is a nested vector: outside the modelled space)
         return {"op": "write", "r": r, "key": key, "val": val}
     if op == "tabwrite":
         t = rng.choice(tabs)
         tb = w.slots[t]
         nc, n = len(tb.cols()), len(tb)
-        form = rng.choice(["cell", "cell", "row", "col", "region", "rowslice"])
+        form = rng.choice(["cell", "cell", "cell", "row", "row", "col", "col", "region", "region", "rowslice", "rowslice",
+                           "cellname", "colsrow", "rowmask", "rowmask", "colslot", "tabslot", "colslist"])
         if nc == 0:
             return {"op": "gc"}
+        if form == "cellname":
+            # the column addressed by its name, its advertised accessor, another spelling, or a name that does not exist
+            nm = tb.column_names()[rng.randrange(nc)]
+            cands = [nm] if isinstance(nm, str) else []
+            try:
+                cands += accessor_names(tb, rng.randrange(nc))[:1]
+            except Exception:
+                pass
+            cands += [c.upper() for c in cands[:1]]
+            cands = cands * 3 + ["nope"]
+            return {"op": "tabwrite", "t": t, "form": "cellname", "row": rng.randint(-1, n) if rng.random() < 0.3 else rng.randrange(max(n, 1)),
+                    "name": rng.choice(cands), "val": rng.choice(VALS + [9] + DATES[:1] + [5, 7, 8, None, 0, 1])}
+        if form == "colsrow":
+            # several columns addressed by a list / tuple of positions and names (a column may be named twice)
+            names = [c for c in tb.column_names() if isinstance(c, str)]
+            cols = [rng.choice(names) if names and rng.random() < 0.4 else rng.randint(-nc, nc - 1 if rng.random() < 0.9 else nc)
+                    for _ in range(rng.randint(1, 3))]
+            if rng.random() < 0.5:
+                return {"op": "tabwrite", "t": t, "form": "colsrow", "row": rng.randint(0, max(n - 1, 0)), "cols": cols, "as": rng.choice(["list", "tuple"]),
+                        "val": rand_vals(rng, len(cols) if rng.random() < 0.85 else len(cols) + 1, rng.choice(["int", "mixed"]))}
+            return {"op": "tabwrite", "t": t, "form": "colsrow", "row": ["slice", rng.randint(0, n), rng.randint(0, n + 1)], "cols": cols,
+                    "as": rng.choice(["list", "tuple"]), "val": rng.choice([0, None, 7, "z", 1.5])}
+        if form == "rowmask":
+            # rows chosen by a mask / positions (list or Vector), or by a comparison on one of the table's own live columns
+            c = rng.random()
+            if c < 0.25:
+                rows = ["mask", [rng.random() < 0.5 for _ in range(n)]]
+            elif c < 0.45:
+                rows = ["vmask", [rng.random() < 0.5 for _ in range(n)]]
+            elif c < 0.6:
+                rows = [rng.choice(["ilist", "vilist"]), [rng.randint(-n, max(n - 1, 0)) for _ in range(rng.randint(1, 3))]]
+            elif c < 0.85:
+                rows = ["colcmp", rng.randrange(nc), rng.choice([0, 1, "a", None, True])]
+            else:
+                rows = ["colkey", rng.randrange(nc)]
+            return {"op": "tabwrite", "t": t, "form": "rowmask", "rows": rows, "col": rng.choice([None, rng.randrange(nc)]),
+                    "val": rng.choice([0, None, 7, "z", 1.5, True])}
+        if form == "colslot":
+            if not vecs:
+                return {"op": "gc"}
+            fit = [i for i in vecs if len(w.slots[i]) == n]
+            st = {"op": "tabwrite", "t": t, "form": "colslot", "col": rng.randrange(nc), "src": rng.choice(fit if fit and rng.random() < 0.8 else vecs),
+                  "rows": rng.choice(["all", "all", "range"])}
+            both = [(j, i) for i in fit for j in range(nc) if w.slots[i].schema() == tb.cols()[j].schema()]
+            if both and rng.random() < 0.7:
+                st["col"], st["src"] = rng.choice(both)       # a live vector that fits the column (length and dtype)
+            return st
+        if form == "tabslot":
+            return {"op": "tabwrite", "t": t, "form": "tabslot", "src": t if rng.random() < 0.25 else rng.choice(tabs),
+                    "how": rng.choice(["whole", "region", "rows"])}
+        if form == "colslist":
+            c0 = rng.randrange(nc)
+            c1 = rng.randint(c0 + 1, nc)
+            return {"op": "tabwrite", "t": t, "form": "colslist", "c0": c0, "c1": c1, "as": rng.choice(["lists", "vecs", "tuple"]),
+                    "val": [rand_vals(rng, n if rng.random() < 0.9 else n + 1, rng.choice(["int", "mixed"])) for _ in range(c1 - c0)]}
         if form == "cell":
             return {"op": "tabwrite", "t": t, "form": "cell", "row": rng.randint(-1, n), "col": rng.randrange(nc),
                     "val": rng.choice(VALS + [9] + DATETIMES + DATES[:1])}
@@ -346,7 +557,8 @@ def choose_step(rng, w, flavor, last=None):
         return {"op": "tabwrite", "t": t, "form": "region", "start": 0, "stop": min(2, n), "c0": 0, "c1": min(2, nc),
                 "val": rng.choice([5, None])}
     if op == "setname":
-        return {"op": "setname", "r": rng.choice(vecs), "name": rng.choice(["zz", "a", "b", "Q q", None])}
+        return {"op": "setname", "r": rng.choice(vecs), "name": rng.choice(["zz", "a", "b", "Q q", None]),
+                "how": rng.choice([None, None, None, "alias", "rename"])}
     if op == "rename":
         t = rng.choice(tabs)
         names = w.slots[t].column_names()
@@ -414,6 +626,35 @@ def choose_step(rng, w, flavor, last=None):
         return {"op": "probe", "r": r, "f": rng.choice(sorted(PROBES_V if r in vecs else PROBES_T))}
     if op == "sharevec":
         return {"op": "sharevec", "dst": dst, "src": rng.choice(vecs)}
+    if op == "keep":
+        r = anyobj()
+        return {"op": "keep", "dst": dst, "r": r, "f": rng.choice(sorted(KEEP_V if r in vecs else KEEP_T))}
+    if op == "concat":
+        return {"op": "concat", "dst": dst, "a": rng.choice(vecs), "b": rng.choice([["slot", rng.choice(vecs)], ["list", rand_vals(rng, rng.randint(0, 2))],
+                                                                              ["scalar", rng.choice([0, 1, None, "a", 1.5])]]),
+                "rev": rng.random() < 0.2}
+    if op == "sel2d":
+        t = rng.choice(tabs)
+        tb = w.slots[t]
+        nc, n = len(tb.cols()), len(tb)
+        if nc == 0:
+            return {"op": "gc"}
+        k = rand_key(rng, n)
+        while k[0] != "slice":
+            k = rand_key(rng, n)
+        if rng.random() < 0.4:
+            k = ["slice", None, None, None]           # every row
+        names = [c for c in tb.column_names() if isinstance(c, str)]
+        c = rng.random()
+        if c < 0.3 or not names:
+            cols = ["int", rng.randint(-nc, nc - 1)]
+        elif c < 0.55:
+            cols = ["name", rng.choice(names)]
+        elif c < 0.8:
+            cols = ["slice", rng.choice([None, 0, 1]), rng.choice([None, nc, 1, 2])]
+        else:
+            cols = ["names", [rng.choice(names) for _ in range(rng.randint(1, 2))]]
+        return {"op": "sel2d", "dst": dst, "src": t, "rows": k, "cols": cols}
     if op == "drop":
         return {"op": "drop", "r": rng.randrange(NSLOTS)}
     return {"op": "gc"}
@@ -430,23 +671,45 @@ def run_step(w, st):
     extra = {}
     try:
         if op == "newvec":
-            sl[st["dst"]] = Vector(dvs(st["vals"]), name=st.get("name"))
+            vals_ = dvs(st["vals"])
+            if st.get("dt") and vals_:
+                from serif.typing import DataType, infer_dtype
+                dt_ = (DataType(object, nullable=any(x is None for x in vals_)) if st["dt"] == "object"
+                       else infer_dtype(vals_).with_nullable(True))
+                sl[st["dst"]] = Vector(vals_, dtype=dt_, name=st.get("name"))
+            else:
+                sl[st["dst"]] = Vector(vals_, name=st.get("name"))
         elif op == "newtab":
             if st["form"] == "dict":
                 sl[st["dst"]] = Table({nm: dvs(vals) for nm, vals in st["cols"]})
             else:
                 sl[st["dst"]] = Table([Vector(dvs(vals), name=nm) for nm, vals in st["cols"]])
         elif op == "tabfrom":
-            sl[st["dst"]] = Table([sl[i] for i in st["srcs"]])
+            form_ = st.get("form", "list")
+            if form_ == "dict":
+                sl[st["dst"]] = Table({"k%d" % j: sl[i] for j, i in enumerate(st["srcs"])})
+            elif form_ == "vector":
+                sl[st["dst"]] = Vector([sl[i] for i in st["srcs"]])
+            elif form_ == "rshift" and len(st["srcs"]) >= 2:
+                acc_ = sl[st["srcs"][0]] >> sl[st["srcs"][1]]
+                for i in st["srcs"][2:]:
+                    acc_ = acc_ >> sl[i]
+                sl[st["dst"]] = acc_
+            else:
+                sl[st["dst"]] = Table([sl[i] for i in st["srcs"]])
         elif op == "copy":
             import copy as _copy
             how = st.get("how")
-            sl[st["dst"]] = (_copy.copy(sl[st["src"]]) if how == "py" else _copy.deepcopy(sl[st["src"]]) if how == "deep"
-                             else sl[st["src"]].copy())
+            src_ = sl[st["src"]]
+            sl[st["dst"]] = (_copy.copy(src_) if how == "py" else _copy.deepcopy(src_) if how == "deep"
+                             else Vector(src_, name=src_.name) if how == "ctor" and not isinstance(src_, Table)
+                             else src_.copy(name=src_.name) if how == "named" and not isinstance(src_, Table)
+                             else src_.copy())
         elif op == "slice":
             sl[st["dst"]] = sl[st["src"]][mk_key(st["key"])]
         elif op == "mask":
-            sl[st["dst"]] = sl[st["src"]][list(st["mask"])]
+            key_, _idxs = sel_key(w, st)
+            sl[st["dst"]] = sl[st["src"]][key_]
         elif op == "select":
             sl[st["dst"]] = sl[st["src"]][tuple(st["names"])]
         elif op == "getcol":
@@ -465,7 +728,12 @@ def run_step(w, st):
         elif op == "setattr":
             t = sl[st["t"]]
             acc = accessor_names(t, st["j"])
-            setattr(t, acc[0], sl[st["src"]])
+            name = acc[0]
+            if st.get("indexed"):
+                import re
+                if not re.search(r"__\d+$", name) and not re.fullmatch(r"col\d+_", name):
+                    name = f"{name}{'' if name.endswith('_') else '_'}_{st['j']}"
+            setattr(t, name, sl[st["src"]])
         elif op == "setattr_list":
             t = sl[st["t"]]
             acc = accessor_names(t, st["j"])
@@ -490,8 +758,8 @@ def run_step(w, st):
                 vals_ = iter(vals_)
             setattr(t, name, vals_)
         elif op == "write":
-            v = st["val"]
-            sl[st["r"]][mk_key(st["key"])] = (dv(v[1]) if v[0] == "scalar" else dvs(v[1]))
+            k_ = st["key"]
+            sl[st["r"]][sl[k_[1]] if k_[0] == "kslot" else mk_key(k_)] = wval_of(sl, st["val"])
         elif op == "tabwrite":
             t = sl[st["t"]]
             f = st["form"]
@@ -503,10 +771,55 @@ def run_step(w, st):
                 t[:, st["col"]] = dvs(st["val"])
             elif f == "rowslice":
                 t[st["start"]:st["stop"]] = dv(st["val"])
+            elif f == "cellname":
+                t[st["row"], st["name"]] = dv(st["val"])
+            elif f == "colsrow":
+                cols_ = list(st["cols"]) if st.get("as") == "list" else tuple(st["cols"])
+                if isinstance(st["row"], list):
+                    t[mk_key(st["row"] + [None]), cols_] = dv(st["val"])
+                else:
+                    t[st["row"], cols_] = dvs(st["val"])
+            elif f == "rowmask":
+                r_ = st["rows"]
+                if r_[0] == "colcmp":
+                    key_ = t.cols()[r_[1]] == dv(r_[2])       # a mask computed from the table's own live column
+                elif r_[0] == "colkey":
+                    key_ = t.cols()[r_[1]]                    # the live column itself as the row key
+                else:
+                    key_ = mk_key(r_)
+                if st.get("col") is None:
+                    t[key_] = dv(st["val"])
+                else:
+                    t[key_, st["col"]] = dv(st["val"])
+            elif f == "colslot":
+                if st.get("rows") == "range":
+                    t[0:len(t), st["col"]] = sl[st["src"]]
+                else:
+                    t[:, st["col"]] = sl[st["src"]]
+            elif f == "tabslot":
+                src_ = sl[st["src"]]
+                if st.get("how") == "whole":
+                    t[:] = src_
+                elif st.get("how") == "rows":
+                    t[0:len(src_)] = src_
+                else:
+                    t[0:len(src_), 0:len(src_.cols())] = src_
+            elif f == "colslist":
+                vals_ = [dvs(c) for c in st["val"]]
+                if st.get("as") == "vecs":
+                    vals_ = [Vector(c) for c in vals_]
+                elif st.get("as") == "tuple":
+                    vals_ = tuple(tuple(c) for c in vals_)
+                t[:, st["c0"]:st["c1"]] = vals_
             else:
                 t[st["start"]:st["stop"], st["c0"]:st["c1"]] = dv(st["val"])
         elif op == "setname":
-            sl[st["r"]].name = st["name"]
+            if st.get("how") == "alias":
+                sl[st["r"]].alias(st["name"])             # in place (refused on a vector that has a name)
+            elif st.get("how") == "rename":
+                sl[st["r"]].rename(st["name"])            # deprecated spelling of the same write
+            else:
+                sl[st["r"]].name = st["name"]
         elif op == "rename":
             sl[st["t"]].rename_column(st["old"], st["new"])
         elif op == "renames":
@@ -563,6 +876,21 @@ def run_step(w, st):
                 extra["probe_err"] = err_class(e)
         elif op == "sharevec":
             sl[st["dst"]] = Vector(storage(sl[st["src"]]), name=sl[st["src"]].name)
+        elif op == "keep":
+            o = sl[st["r"]]
+            f = (KEEP_T if isinstance(o, Table) else KEEP_V).get(st["f"])
+            res_ = f(o) if f is not None else None
+            if isinstance(res_, Vector) and type(res_).__name__ != "Row":
+                sl[st["dst"]] = res_
+                extra["kept"] = True
+        elif op == "concat":
+            b = st["b"]
+            other = sl[b[1]] if b[0] == "slot" else dvs(b[1]) if b[0] == "list" else dv(b[1])
+            sl[st["dst"]] = (other << sl[st["a"]]) if st.get("rev") else (sl[st["a"]] << other)
+        elif op == "sel2d":
+            c_ = st["cols"]
+            cs_ = c_[1] if c_[0] in ("int", "name") else slice(c_[1], c_[2]) if c_[0] == "slice" else tuple(c_[1])
+            sl[st["dst"]] = sl[st["src"]][mk_key(st["rows"]), cs_]
         elif op == "drop":
             sl[st["r"]] = None
         elif op == "gc":
@@ -581,7 +909,7 @@ def run_step(w, st):
 # documented answer for a missing column / a method the element type does not have)
 NO_CRASH_OPS = {"newvec", "newtab", "tabfrom", "copy", "slice", "mask", "select", "stack", "stackvt", "stackdict", "stackdictv", "append",
                 "appendt", "T", "sort", "sortv", "aggregate", "window", "arith", "tarith", "compare", "unary", "fillna", "write",
-                "tabwrite", "rename", "renames", "fingerprint", "repr", "sharevec", "setname"}
+                "tabwrite", "rename", "renames", "fingerprint", "repr", "sharevec", "setname", "concat", "sel2d"}
 CRASH_CLASSES = {"attr", "other:NameError", "other:UnboundLocalError", "other:RecursionError"}
 
 
@@ -628,19 +956,27 @@ def applicable(w, st):
             "sort": [("src", "t")], "sortv": [("src", "v")], "aggregate": [("src", "t")], "window": [("src", "t")],
             "join": [("L", "t"), ("R", "t")], "arith": [("a", "v")], "tarith": [("a", "t")], "compare": [("a", "v")],
             "unary": [("a", "v")], "fillna": [("a", "v")], "fingerprint": [("r", "vt")], "repr": [("r", "vt")], "probe": [("r", "vt")],
-            "sharevec": [("src", "v")], "tabfrom": []}.get(op, [])
+            "sharevec": [("src", "v")], "tabfrom": [], "keep": [("r", "vt")], "concat": [("a", "v")], "sel2d": [("src", "t")]}.get(op, [])
     for f, allowed in need:
         if k(st.get(f)) is None or k(st[f]) not in allowed:
             return False
     if op == "tabfrom" and not all(k(i) == "v" for i in st["srcs"]):
         return False
-    if op in ("arith", "compare", "tarith") and st["b"][0] == "slot" and k(st["b"][1]) not in ("v", "t"):
+    if op in ("arith", "compare", "tarith", "concat") and st["b"][0] == "slot" and k(st["b"][1]) not in ("v", "t"):
+        return False
+    if op == "write" and ((st["key"][0] == "kslot" and k(st["key"][1]) != "v") or (st["val"][0] == "vslot" and k(st["val"][1]) != "v")):
+        return False
+    if op == "mask" and "kslot" in st and k(st["kslot"]) != "v":
+        return False
+    if op == "tabwrite" and st.get("form") in ("colslot", "tabslot") and k(st.get("src")) != ("v" if st["form"] == "colslot" else "t"):
+        return False
+    if op == "tabwrite" and st.get("form") == "rowmask" and st["rows"][0] in ("colcmp", "colkey") and st["rows"][1] >= len(w.slots[st["t"]].cols()):
         return False
     if op in ("getcol", "setattr", "setattr_list"):
         t = w.slots[st["t"]]
         if st["j"] >= len(t.cols()):
             return False
-    if op == "tabwrite" and st.get("col", 0) >= len(w.slots[st["t"]].cols()):
+    if op == "tabwrite" and isinstance(st.get("col"), int) and st["col"] >= len(w.slots[st["t"]].cols()):
         return False
     return True
 
